@@ -62,7 +62,7 @@ impl Prop for C08 {
                 _ => r.range(0, 2 * n + 3),
             };
             let leaf = Spec::stall(d, Spec::echo());
-            let mk = *r.pick(crate::spec::MAS);
+            let mk = crate::gen::pick_ma_kind(r);
             let mut ma = Spec::un(mk, r.range(1, 6), Spec::echo());
             gen_params(r, &mut ma, false);
             let mut s = wrap(r, k, n, leaf, Some(ma));
@@ -80,7 +80,7 @@ impl Prop for C08 {
                 }
             };
         }
-        let positive = tree.needs_positive_feed();
+        let sign = pick_feed_sign(r, std::slice::from_ref(&tree));
         let shape = r.below(SHAPES.len()) as u8;
         let scale = *r.pick(SCALES) / 4.25;
         let ws_sum = tree.window_sum();
@@ -91,7 +91,7 @@ impl Prop for C08 {
         } else {
             r.range(1, 3 * ws_sum + 40)
         };
-        let vals = gen_shape(r, shape, len, scale, positive);
+        let vals = crate::feed::gen_signed(r, shape, len, scale, sign);
         let p_obs = *r.pick(&[0.0, 0.1, 0.5]);
         sc.events = single_schedule(r, &vals, p_obs, true);
         sc.trees.push(tree);
